@@ -29,6 +29,12 @@ def gen_cases(rng, tier, scale):
         cases.append(gen_posonly_case(rng))
     for _ in range((40 if tier == 'quick' else 1200) * scale):           # shared Parameter objects, calls in sequence
         cases.append(gen_shared(rng, maxchain))
+    for _ in range((45 if tier == 'quick' else 900) * scale):            # a parameter literally NAMED cls / args / kwargs / ..., first or later, mostly undeclared
+        cases += gen_convention_names(rng, maxchain, 4 if tier == 'quick' else 8)
+    for _ in range((160 if tier == 'quick' else 4000) * scale):          # a rejection that already carries the name of another field
+        cases.append(gen_named_rejection(rng, maxchain))
+    for _ in range((12 if tier == 'quick' else 300) * scale):            # ignore_input=True x every Parameter kind (FlaskPathParameter) x call styles
+        cases += gen_matrix(rng, maxchain, rng.randint(1, 3), 6, ignore_input=True)
     if tier == 'thorough':
         for _ in range(250 * scale):
             cases += gen_matrix(rng, maxchain, rng.randint(1, 3), 8, flask=True)
@@ -41,5 +47,5 @@ def run(tier, seed, replay=None):
                            'configurations (value_type, harness validator chains incl. chains with the first rejection at a chosen '
                            'position, required, default, harness external source / environment variable) x strict x ignore_input x '
                            '3 return_as modes x sync/async x calls (valid 88%, malformed 12%: surplus keyword, too many positionals, duplicate, '
-                           'Parameter the function lacks, name declared twice, no Parameter, strict with one undeclared argument) + a slice of the call-style matrix + declarations with several Parameters (plain / external) for one name, judged against every resolution of the duplicate + functions with *args (8% of the random signatures, correspondence; a dedicated stream in their principal use judged against spec_star_outcome) + sequences of calls of functions sharing their Parameter objects; distinct = whole case; non-trivial = at least one '
+                           'Parameter the function lacks, name declared twice, no Parameter, strict with one undeclared argument) + a slice of the call-style matrix + declarations with several Parameters (plain / external) for one name, judged against every resolution of the duplicate + functions with *args (8% of the random signatures, correspondence; a dedicated stream in their principal use judged against spec_star_outcome) + sequences of calls of functions sharing their Parameter objects + functions / methods with a parameter literally named cls / args / kwargs / result / ... (first or later position, mostly without Parameter) x all call styles x 3 modes + chains with a validator whose ValidatorException already carries the parameter_name of another field (via Validator.validate_param / raised directly; also 3% of the random validators) at a chosen chain position, value at the boundary + ignore_input=True x Parameter kinds incl. FlaskPathParameter x call styles; distinct = whole case; non-trivial = at least one '
                            'Parameter and at least one supplied or external value')
